@@ -135,6 +135,7 @@ PLANS = {
             ("h6-seam", 6, ["-hf", "1,2", "-seam", "-modes", "walk,random", "-reps", "12"]),
             ("h8-seam", 8, ["-hf", "0", "-seam", "-modes", "random", "-reps", "6"]),
             ("h18-tall", 18, ["-hf", "2", "-seam", "-modes", "tall"]),
+            ("h26-pos-tall", 26, ["-hf", "1", "-pos", "-modes", "tall"]),   # the top byte of the 4-byte index: index >= 2^24
             ("h20-pos-tall", 20, ["-hf", "0", "-pos", "-modes", "tall"]),
             ("h4-otherhash", 4, ["-hf", "0", "-modes", "counter"]),
             ("h6-otherhash", 6, ["-hf", "0", "-modes", "counter"]),
